@@ -73,6 +73,7 @@ Inductive tinput :=
 | IStatusJ (s : statusj)                     (* ... into RevocationStatus *)
 | IGist (v : vmj)                            (* ... into GistInfoProof *)
 | IAuth (a : authj)                          (* Authentication.UnmarshalJSON *)
+| IResolve (a : didans)                      (* HTTPDIDResolver.Resolve *)
 | IMz (len_in : snum) (given : option limbs) (toks : list rtok)   (* MerklizerFromBytes *)
 | IEntry (toks : list rtok)                  (* RDFEntry.UnmarshalBinary *)
 | ITail (es : list rwentry) (compact_ok : bool)   (* MerklizeJSONLD after EntriesFromRDF *)
@@ -91,12 +92,13 @@ Definition run_input (P : prim) (F : floats) (i : tinput) : int :=
   match i with
   | IVerify p => code (verify_proof g p)
   | IStatus s => code (validate_status g s)
-  | ICred c => code (cred_unmarshal c)
-  | IProofs j => code (proofs_unmarshal j)
+  | ICred c => code (cred_unmarshal g c)
+  | IProofs j => code (proofs_unmarshal g j)
   | IDidDoc d => code (diddoc_unmarshal g d)
-  | IStatusJ s => code (status_unmarshal s)
-  | IGist v => code (vm_unmarshal v)
+  | IStatusJ s => code (status_unmarshal g s)
+  | IGist v => code (vm_unmarshal g v)
   | IAuth a => code (auth_unmarshal g a)
+  | IResolve a => code (did_resolve g a)
   | IMz n given toks =>
       code (fst (merklizer_unmarshal ktree kadd g P [] (z_of_snum n)
                    (match given with Some l => Some (z_of_limbs l) | None => None end)
